@@ -6,6 +6,7 @@ import (
 	"regexp"
 	"regexp/syntax"
 	"strings"
+	"sync"
 	"time"
 	"unicode/utf8"
 
@@ -227,6 +228,7 @@ func checkC02(r *Report, known []Finding) {
 	r.Rule = "end-to-end: Find, FindString, FindIndex, FindStringIndex, FindReaderIndex vs regexp on patterns from corpus/mutation/grammar x haystacks derived from the pattern (valid, " +
 		"multi-byte, ill-formed, long > 100 bytes); the engines underneath are tied to the proved reference by the C14 check; non-trivial = a match exists; distinct by pattern"
 	obs := append(obsFind(), obsReader()[1])
+	obs = append(obs, obsEngineFind()...)
 	runE2E(r, known, e2eSpec{prop: "C02", obs: obs, np: 5000, nh: 12, npT: 24000, nhT: 16, probes: e2eProbes, nontriv: func(w string) bool { return w != "nil" && w != `""` }})
 	c02ReverseTie(r)
 	c02RevSuffixTie(r)
@@ -451,6 +453,81 @@ func c02RevSuffixTie(r *Report) {
 
 // e2eProbes: shapes whose strategies keep budgets, windows or candidate loops (digit prefilter with its scan budget, reverse
 // strategies, start-anchored dot loops): they run first and also on stretched haystacks.
-var e2eProbes = []string{`[0-9][0-9a-f]*h|[0-9]+px`, `[0-9][a-z0-9]*X|7Y`, `(\d[\da-z]*_id|\d{4}-\d{2})`, `[0-9]+[a-z]*\.com`, `\d+\.\d+\.\d+`,
+// manyLiterals builds an alternation of n distinct 3-letter words (no word occurs inside another).
+func manyLiterals(n int) string {
+	var ws []string
+	for i := 0; i < n; i++ {
+		ws = append(ws, fmt.Sprintf("%c%c%c", 'a'+i%26, 'e'+(i/2)%20, 'k'+(i*7)%15))
+	}
+	return strings.Join(ws, "|")
+}
+
+var e2eProbes = []string{
+	// literal alternations large enough for the Aho-Corasick strategy (> 64) and for Fat Teddy (33..64), with a literal that occurs
+	// INSIDE another one, listed before or after it: the automaton behind both reports the occurrence that ends first
+	"rdqs1b|dqs|" + manyLiterals(70), "dqs|rdqs1b|" + manyLiterals(70), manyLiterals(70) + "|xbcd|xbc", "xbcd|" + manyLiterals(20) + "|xbc|" + manyLiterals(40)[80:],
+	manyLiterals(40) + "|abcab|bca", `25[0-5]|2[0-4][0-9]`, manyLiterals(70), `[0-9][0-9a-f]*h|[0-9]+px`, `[0-9][a-z0-9]*X|7Y`, `(\d[\da-z]*_id|\d{4}-\d{2})`, `[0-9]+[a-z]*\.com`, `\d+\.\d+\.\d+`,
 	`[a-z]+\.txt`, `\w+@\w+\.com`, `.*error.*`, `[a-z ]+connection[a-z ]+[0-9]`, `(?m)^/.*[0-9]\.php`, `^a.*b`, `^.+b`, `\bport.\d+`, `\Bion.\w`,
 	`[a-z]+[a-z]+[0-9]`, `(foo|bar)+x`, `"[^"]*"`}
+
+var engCache sync.Map // pattern -> *meta.Engine
+
+// obsEngineFind: meta.Engine.Find / FindAt (the *Match-returning entry points have their own per-strategy code in meta/find.go)
+// against regexp; for at > 0 only on patterns without look-around, where regexp's answer on h[at:] shifted by at is the answer.
+func obsEngineFind() []Obs {
+	engOf := func(p string) *meta.Engine {
+		if v, ok := engCache.Load(p); ok {
+			e, _ := v.(*meta.Engine)
+			return e
+		}
+		e, err := meta.Compile(p)
+		if err != nil {
+			e = nil
+		}
+		engCache.Store(p, e)
+		return e
+	}
+	span := func(m *meta.Match) string {
+		if m == nil {
+			return "nil"
+		}
+		return fmt.Sprintf("[%d %d]", m.Start(), m.End())
+	}
+	return []Obs{
+		{"Engine.Find", func(re StdAPI, h []byte) string {
+			if _, ok := re.(*coregex.Regex); ok {
+				if e := engOf(re.String()); e != nil {
+					return span(e.Find(h))
+				}
+				return "skip"
+			}
+			if engOf(re.String()) == nil {
+				return "skip"
+			}
+			return fmtInts(re.FindIndex(h))
+		}},
+		{"Engine.FindAt", func(re StdAPI, h []byte) string {
+			ast, err := syntax.Parse(re.String(), syntax.Perl)
+			if err != nil || engOf(re.String()) == nil {
+				return "skip"
+			}
+			if f := featuresOf(ast); f.WordB || f.LineA || f.TextA {
+				return "skip"
+			}
+			var out []string
+			for _, at := range []int{1, len(h) / 2, len(h)} {
+				if at < 0 || at > len(h) {
+					continue
+				}
+				if _, ok := re.(*coregex.Regex); ok {
+					out = append(out, span(engOf(re.String()).FindAt(h, at)))
+				} else if loc := re.FindIndex(h[at:]); loc != nil {
+					out = append(out, fmt.Sprintf("[%d %d]", loc[0]+at, loc[1]+at))
+				} else {
+					out = append(out, "nil")
+				}
+			}
+			return strings.Join(out, ",")
+		}},
+	}
+}
